@@ -1,10 +1,12 @@
 #!/bin/bash
-# usage: run_seed.sh <patch.diff> <prop> [<prop>...]   applies the patch to /repo, runs the checks, undoes it
+# usage: run_seed.sh <patch.diff> <prop> [<prop> ...]
+# applies the seeded change to /repo's working tree, runs the quick check of each property, reverts.
 set -u
 P=$1; shift
-cd /repo && git apply --check "$P" || { echo "patch does not apply to /repo"; exit 2; }
-git -C /repo apply "$P"
-for pid in "$@"; do
-  (cd /verif && ./check "$pid" --tier quick 2>&1 | grep -E "VIOLATION|KNOWN|quick:" | cut -c1-220)
+cd /verif
+git -C /repo apply "$P" || { echo "patch does not apply"; exit 2; }
+trap 'git -C /repo checkout -- . ' EXIT
+for prop in "$@"; do
+  out=$(./check "$prop" --tier quick 2>&1); rc=$?
+  echo "== $prop rc=$rc"; echo "$out" | grep -E "VIOLATION|KNOWN|quick:" | head -5
 done
-git -C /repo checkout -- .
